@@ -270,10 +270,12 @@ def run(chk, replay=None):
     if len(cases) < 800:
         raise MachineryError('Gen produced %d catalogs' % len(cases))
     nbad = 0
+    vary = random.Random(chk.seed * 7919 + 3)      # pseudo-random choices (TLC emits cases in a regular order)
     for ci, case in enumerate(cases):
         for wi, w in enumerate(worlds):
-            if not quick or (ci + wi) % 2 == 0 or len(case['cat']) <= 2:
-                bad = compare_case(w, case, ci + wi)
+            if not quick or vary.random() < 0.5 or len(case['cat']) <= 2:
+                variant_ = vary.randrange(10 ** 6)
+                bad = compare_case(w, case, variant_)
                 cat_abs = case['cat']
                 if len(set(map(tuple, cat_abs))) < len(cat_abs) or any(c == 0 or k == 0 for c, k in cat_abs):
                     chk.nontrivial('%s|%s' % (w.name, cat_abs))
@@ -282,7 +284,7 @@ def run(chk, replay=None):
                     kinds = ('outside' if any(c == 0 for c, k in cat_abs) else 'inside') + '/' + \
                             ('below-min' if any(k == 0 for c, k in cat_abs) else 'in-range')
                     chk.violation('gen:%s:%s:%s' % (bad[0][0], 'quadtree' if w.quad else 'cartesian', kinds),
-                                  {'world': w.name, 'case': case, 'variant': ci + wi, 'mismatches': bad})
+                                  {'world': w.name, 'case': case, 'variant': variant_, 'mismatches': bad})
         if ci in (5, 300):
             chk.sample({'abstract_catalog': case['cat'], 'expected': {k: case[k] for k in ('smc', 'sc', 'mc', 'filt')}})
     if nbad == 0:
